@@ -533,15 +533,8 @@ size_t cc_hashtable_capacity(CC_HashTable *table)
  */
 bool cc_hashtable_contains_key(CC_HashTable *table, void *key)
 {
-    TableEntry *entry = table->buckets[get_table_index(table, key)];
-
-    while (entry) {
-        if (table->key_cmp(key, entry->key) == 0)
-            return true;
-
-        entry = entry->next;
-    }
-    return false;
+    void *value;
+    return cc_hashtable_get(table, key, &value) == CC_OK;
 }
 
 /**
